@@ -152,6 +152,15 @@ fn main() {
                 mon::c06::child(&ctx);
             });
         }
+        "show-example" => {
+            let body: serde_json::Value =
+                serde_json::from_str(&std::fs::read_to_string(&args[2]).unwrap()).unwrap();
+            let r = reg::from_json(&body["replay"]["registry"]);
+            let d: sdesc::SDesc = serde_json::from_value(body["replay"]["sdesc"].clone()).unwrap();
+            let id = body["replay"]["id"].as_u64().unwrap() as u32;
+            let seed = body["replay"]["seed"].as_u64().unwrap();
+            println!("{:?}", scale_typegen_description::rust_value_from_seed(id, &r, &d.build(), seed, None, None).map(|t| t.to_string()));
+        }
         "warm" => {
             // setup aid: build the artifact dependencies once per target-dir slot
             for slot in 0..4usize {
